@@ -37,7 +37,8 @@ def run(c):
     quick = c.tier == "quick"
     B.build([("rel", "h_tb"), ("asan", "h_tb")])
     rnd = random.Random(c.seed)
-    four = [rnd.choice(FOUR)] if quick else list(FOUR)
+    DUP = [x for x in FOUR if x[1] == x[2] or (x[1] == "K" and x[2] == x[3])]      # classes with two identical pieces
+    four = [rnd.choice(FOUR), rnd.choice(DUP)] if quick else list(FOUR)
     if quick and "KQKR" not in four:
         four.append("KQKR")     # needed by C13/C04 style consumers and the abort runs
     classes = THREE + four
@@ -76,6 +77,7 @@ def run(c):
                    max_win_dtm=st.get("max_win_dtm", 0), asan_positions_checked=st_a.get("positions_checked", 0),
                    abort_cases=ast.get("abort_cases", 0), generations_aborted=ast.get("generations_aborted", 0),
                    generations_completed_despite_stop=ast.get("generations_completed", 0), probes_after_abort=ast.get("probes_after_abort", 0),
+                   probes_of_previously_resident_class=ast.get("probes_of_previously_resident_class", 0),
                    scope_probes_out_of_scope=sst.get("scope_out_probes", 0))
     c.assumptions += ["the mini rules engine in h_tb.cpp (independent of the engine and of refchess) generates the legal moves of <=4-men pawnless positions correctly; "
                       "it reproduces the known maximal DTM values (KQK 10, KRK 16, KBNK 33, KQKR 35) as a side effect",
